@@ -131,7 +131,11 @@ func (a *absCtx) fsOf(d *RawDir, roles map[string]InitFile) []any {
 		if roles != nil {
 			if r, ok := roles[f.P]; ok {
 				rec["role"] = r.Role
-				rec["owner"] = r.Owner
+				if r.Role == "symlink" {
+					rec["role"] = r.Owner // what the link stands for ("multi" / "alone" / "other")
+				} else {
+					rec["owner"] = r.Owner
+				}
 			}
 		}
 		out = append(out, rec)
